@@ -166,6 +166,58 @@ def one_program(ctx, fam, i):
     ctx.case({"f": fam["family"], "s": gen.shape_of(spec), "fail": bool(fail)}, nontrivial, sample={"family": fam["family"], "spec": spec, "inputs": inputs} if i < 2 else None)
 
 
+def top_level_map(ctx, i):
+    """runner.map() over 0..3 items (an EMPTY map included) with a faulty processor (every event, one event, or at
+    shutdown) next to a healthy one: same per-item results as without processors, healthy stream complete, one shutdown."""
+    rng = ctx.rng
+    Rec, ARec = rt.make_processors()
+    Faulty, AFaulty = make_faulty()
+    inner = gen.gen_dag(rng, n_nodes=(1, 3), n_inputs=(1, 2), p_default_input=0.0, p_default_edge=0.0, p_gen=0.0, p_noout=0.0, p_emit=0.0, name="mp", prefix="t")
+    ins = gen.consumed_inputs(inner)
+    over = ins[0]
+    n_items = rng.choice([0, 0, 1, 2, 3])
+    inputs = {k: ([f"{k}:{j}" for j in range(n_items)] if k == over else f"run:{k}") for k in ins}
+    for runner in ("sync", "async"):
+        s = core.with_async(inner, runner == "async", rng, 0.6)
+        base = core.execute(s, inputs, runner, map_over=over, warm=False)
+        if base.deadlock or base.inconclusive:
+            continue
+        b_out, b_inv = outcome(base)
+        rec_run = core.execute(s, inputs, runner, map_over=over, processors=[Rec("h")], warm=False)
+        b_tree = monitors.span_tree(rt.events_of(rec_run.rec, "h"))
+        N = len(rt.events_of(rec_run.rec, "h"))
+        plans = [("every", None), ("shutdown", None)] + ([("k", rng.randrange(N))] if N else [])
+        for kind, k in plans:
+            use_async_cls = runner == "async" and rng.random() < 0.5
+            F = (AFaulty if use_async_cls else Faulty)(k=k, every=(kind == "every"), at_shutdown=(kind == "shutdown"))
+            H = ARec("h", rng, 3) if runner == "async" and rng.random() < 0.5 else Rec("h")
+            first = rng.random() < 0.6
+            o = core.execute(s, inputs, runner, map_over=over, processors=[F, H] if first else [H, F], warm=False)
+            ctx.obs["fault_runs"] += 1
+            ctx.obs["top_level_map_runs"] += 1
+            ctx.obs["empty_map_runs"] += int(n_items == 0)
+            case = {"family": "runner.map", "spec": inner, "inputs": inputs, "runner": runner, "fault": kind, "k": k, "faulty_first": first, "faulty_async": use_async_cls, "items": n_items}
+            if o.deadlock or o.inconclusive:
+                ctx.inconc(o.inconclusive or "deadlock")
+                continue
+            for f in F.fired:
+                ctx.obs["site:" + f] += 1
+            got, inv = outcome(o)
+            if got != b_out:
+                ctx.violation("C13:outcome-changed:map:" + kind, f"{runner}.map over {n_items} items: processor raising at {kind} changed the call: {core.short(got, 240)} vs {core.short(b_out, 240)}; exc={o.exc!r}", case)
+                continue
+            if inv != b_inv:
+                ctx.violation("C13:invocations-changed:map:" + kind, f"{runner}.map: node invocations differ from the processor-free call", case)
+                continue
+            ctx.obs["streams_compared"] += 1
+            if monitors.span_tree(rt.events_of(o.rec, "h")) != b_tree:
+                ctx.violation("C13:healthy-stream-incomplete:map:" + kind, f"{runner}.map over {n_items} items: the healthy processor's stream differs when the other raised at {kind}", case)
+            shut = sum(1 for e in o.rec.ev if e[0] == "shutdown" and e[1] == "h")
+            if shut != 1:
+                ctx.violation("C13:healthy-shutdown-count:map:" + kind, f"{runner}.map over {n_items} items: healthy processor shut down {shut} times (faulty registered {'first' if first else 'second'})", case)
+    ctx.case({"f": "runner.map", "s": gen.shape_of(inner), "n": n_items}, True)
+
+
 def run(ctx):
     n = 30 if ctx.tier == "quick" else 700
     core.WARM_P = 0.0
@@ -177,3 +229,4 @@ def run(ctx):
     for i in range(n):
         fam = families.rich(ctx.rng)
         one_program(ctx, fam, i)
+        top_level_map(ctx, i)
